@@ -45,6 +45,11 @@ type Scenario struct {
 	Recreate bool
 	// RollbackInBatch sets the rollouts.kruise.io/rollback-in-batch annotation on the Rollout
 	RollbackInBatch bool
+	// MaxSurge / MaxUnavailable: the user's rolling-update parameters of a Deployment (default "25%" / "25%")
+	MaxSurge, MaxUnavailable string
+	// PatchPodMeta: the canary strategy patches the label track=canary onto the canary pods while the user's pods and
+	// the stable Service's selector carry track=stable
+	PatchPodMeta bool
 	// HPA: the user has a HorizontalPodAutoscaler targeting the workload (blue-green releases disable and restore it)
 	HPA bool
 	// TRCR: traffic is not configured in the Rollout's strategy but by a separate TrafficRouting custom resource
@@ -145,8 +150,17 @@ func (sc *Scenario) Build(w *World) error {
 				RevisionHistoryLimit:    utilpointer.Int32(10),
 			},
 		}
+		if sc.MaxSurge != "" {
+			d.Spec.Strategy.RollingUpdate.MaxSurge = parseIS(sc.MaxSurge)
+		}
+		if sc.MaxUnavailable != "" {
+			d.Spec.Strategy.RollingUpdate.MaxUnavailable = parseIS(sc.MaxUnavailable)
+		}
 		if sc.Recreate {
 			d.Spec.Strategy = apps.DeploymentStrategy{Type: apps.RecreateDeploymentStrategyType}
+		}
+		if sc.PatchPodMeta {
+			d.Spec.Template.Labels["track"] = "stable"
 		}
 		if err := w.Raw.Create(ctx, d); err != nil {
 			return err
@@ -190,6 +204,9 @@ func (sc *Scenario) Build(w *World) error {
 	if sc.Traffic != "" {
 		svc := &corev1.Service{ObjectMeta: metav1.ObjectMeta{Namespace: ns, Name: AppName},
 			Spec: corev1.ServiceSpec{Selector: map[string]string{"app": AppName}, Ports: []corev1.ServicePort{{Port: 80, TargetPort: intstr.FromInt(8080)}}}}
+		if sc.PatchPodMeta {
+			svc.Spec.Selector["track"] = "stable"
+		}
 		if err := w.Raw.Create(ctx, svc); err != nil {
 			return err
 		}
@@ -322,6 +339,9 @@ func (sc *Scenario) Rollout() *rolloutsv1beta1.Rollout {
 		ro.Spec.Strategy.BlueGreen = &rolloutsv1beta1.BlueGreenStrategy{Steps: sc.steps(), TrafficRoutings: trs}
 	default:
 		ro.Spec.Strategy.Canary = &rolloutsv1beta1.CanaryStrategy{Steps: sc.steps(), TrafficRoutings: trs, EnableExtraWorkloadForCanary: sc.Style == "canary"}
+		if sc.PatchPodMeta {
+			ro.Spec.Strategy.Canary.PatchPodTemplateMetadata = &rolloutsv1beta1.PatchPodTemplateMetadata{Labels: map[string]string{"track": "canary"}}
+		}
 	}
 	return ro
 }
